@@ -12,6 +12,7 @@ var (
 	// ErrNoXMP is returned when no XMP Root Tag is found.
 	ErrNoXMP          = errors.New("xmp: error no XMP Tag found")
 	ErrPropertyNotSet = errors.New("xmp: error property not set")
+	errDateLayout     = errors.New("xmp: error date is not of the form 2006-01-02T15:04:05")
 
 	// DebugMode when true would print items not parsed in XMP
 	DebugMode = false
